@@ -92,21 +92,37 @@ def strip_lean_comments(src):
     return "".join(out)
 
 
-HYGIENE = re.compile(r"\bsorry\b|\badmit\b|^\s*axiom\s|native_decide|bv_decide|implemented_by|\bunsafe\s|maxHeartbeats\s+0|@\[extern|ofReduceBool")
+HYGIENE = re.compile(r"(?<![.\w])sorry(?![\w.])|(?<![.\w])admit(?![\w.])|^\s*axiom\s|native_decide|bv_decide|implemented_by|(?<![.\w])unsafe\s|maxHeartbeats\s+0|@\[extern|ofReduceBool")
 
 
-def hygiene():
+def module_file(mod):
+    return os.path.join(LEAN, *mod.split(".")) + ".lean"
+
+
+def import_closure(mods):
+    """project-local modules (Qx.*, Driver.*) transitively imported by `mods`"""
+    seen, todo = set(), list(mods)
+    while todo:
+        m = todo.pop()
+        if m in seen or not os.path.exists(module_file(m)):
+            continue
+        seen.add(m)
+        for line in open(module_file(m), encoding="utf8"):
+            mm = re.match(r"\s*(?:public\s+)?import\s+((?:Qx|Driver)\.[\w.]+)", line)
+            if mm:
+                todo.append(mm.group(1))
+    return sorted(seen)
+
+
+def hygiene(mods):
+    """grep the sources the property depends on (comments stripped) for constructs that would void a proof"""
     hits = []
-    for base in ("Qx", "Driver"):
-        for dp, _, fs in os.walk(os.path.join(LEAN, base)):
-            for f in fs:
-                if not f.endswith(".lean"):
-                    continue
-                p = os.path.join(dp, f)
-                txt = strip_lean_comments(open(p, encoding="utf8").read())
-                for n, line in enumerate(txt.split("\n"), 1):
-                    if HYGIENE.search(line):
-                        hits.append("%s:%d: %s" % (os.path.relpath(p, ROOT), n, line.strip()[:120]))
+    for m in import_closure(mods):
+        p = module_file(m)
+        txt = strip_lean_comments(open(p, encoding="utf8").read())
+        for n, line in enumerate(txt.split("\n"), 1):
+            if HYGIENE.search(line):
+                hits.append("%s:%d: %s" % (os.path.relpath(p, ROOT), n, line.strip()[:120]))
     return hits
 
 
@@ -142,8 +158,17 @@ def audit(pid, module, names):
 
 # ----------------------------------------------------------------------------- harness
 def build_harness(name, asan=False):
+    """asan: False | True (harness instrumented, release library) | "lib" (harness AND library instrumented)"""
+    extra = []
+    if asan == "lib":
+        ok, out = build_repo(asan=True)
+        if not ok:
+            return False, out
+        extra = ["asanlib"]
+    elif asan:
+        extra = ["asan"]
     with lock("harness-" + name):
-        return_code, out = sh([os.path.join(ROOT, "harness", "build.sh"), name] + (["asan"] if asan else []), timeout=900)
+        return_code, out = sh([os.path.join(ROOT, "harness", "build.sh"), name] + extra, timeout=900)
     return return_code == 0, out
 
 
@@ -286,7 +311,7 @@ class Check:
             errs = [l for l in out.split("\n") if l.startswith("error:")]
             self.broken.append({"what": "lake build failed: a proof obligation no longer checks", "detail": "\n".join(errs[:20]) or out[-3000:]})
         self.log("lake build", "ok" if ok else "FAILED")
-        hits = hygiene()
+        hits = hygiene(list(spec["lean_modules"]) + ["Driver." + d.split("_")[-1].upper() if d.startswith("qxdriver_c") and d[10:].isdigit() else "Driver." + d.split("_")[-1].capitalize() for d in spec.get("drivers", [])])
         if hits:
             self.broken.append({"what": "hygiene grep hit (sorry/axiom/native_decide/...)", "detail": "\n".join(hits[:20])})
         names = []
